@@ -263,19 +263,20 @@ endstruc
         lea     tmp3, [n - 1]
         shl     tmp3, 4
         add     tmp, tmp3
-        vmovdqu xmm1, [tmp] ;; load last block
 
         ;; get mask for padding
 %ifndef LINUX
         mov     tmp3, rcx       ; save rcx
 %endif
         mov     rcx, r
-        mov     tmp, 0xffff
-        shl     tmp, cl
+        mov     tmp5, 0xffff
+        shl     tmp5, cl
 %ifndef LINUX
         mov     rcx, tmp3       ; restore rcx
 %endif
-        kmovq   k1, tmp
+        kmovq   k1, tmp5
+        knotw   k2, k1
+        vmovdqu8 xmm1{k2}{z}, [tmp] ;; load only the r message bytes of the last block
 
         lea     tmp, [rel padding_0x80_tab16 + 16]
         sub     tmp, r
